@@ -48,7 +48,7 @@ fn main() {
         }
     }).heavy());
     let meta = Meta {
-        rule: "all pairs (G, H) of the listed universes with ALL maps w, x between their node and edge sets (natural or not); on a smaller universe also all maps whose domain or codomain is off by one (mistyped); a slice of 3-node / 2-edge hypergraphs where arities can shift between edges; for convexity every sub-hypergraph (edge subset x node superset of its incidences) of every hypergraph with the sorted and the reversed inclusion; acceptance must coincide with the definition, a rejection must name a condition that is really false, is_monomorphism and is_convex_subgraph are compared on every accepted arrow; both build profiles".into(),
+        rule: "all pairs (G, H) of the listed universes with ALL maps w, x between their node and edge sets (natural or not); on a smaller universe also all maps whose domain or codomain is off by one (mistyped); a slice of 3-node / 2-edge hypergraphs where arities can shift between edges; for convexity every sub-hypergraph (edge subset x node superset of its incidences) of every hypergraph with the sorted and the reversed inclusion; acceptance must coincide with the definition, a rejection must name a condition that is really false, is_monomorphism and is_convex_subgraph are compared on every accepted arrow; both build profiles; plus every sub-hypergraph of structured larger hosts (chains, cycles with tails, diamonds, ... up to size parameter 3-4), of all unary hosts with three hyperedges, and every map of <=2 nodes into discrete hosts of up to 12 nodes".into(),
         bounds: "G, H: <=2 nodes, <=1-2 hyperedges, arity <=2, 2 node labels, 1-2 edge labels; convexity: <=3 nodes, <=2-3 hyperedges (thorough: 4 nodes, up to 4 unary hyperedges)".into(),
         assumptions: vec!["which failing condition is named first is not demanded".into()],
         explanation: "explicit enumeration of HypergraphArrow::new / is_monomorphism / is_convex_subgraph against brute-force definitions (path search over (node, used-outside-edge) states)".into(),
